@@ -106,7 +106,7 @@ func (b *Built) fillOne(dst reflect.Value, k Kind, msg int, ptr bool, v *Val) {
 			dst.Set(reflect.Zero(dst.Type()))
 			return
 		}
-		p := reflect.New(b.Go[msg])
+		p := reflect.New(dst.Type().Elem()) // *struct or *PMsg / *CMsg
 		b.fillMsg(p.Elem(), &b.S.Msgs[msg], v)
 		dst.Set(p)
 		return
